@@ -68,3 +68,22 @@ Example C15_hypotheses_satisfiable :
   forall v, observable true v (mkenv ex_c1 [] [] [] 1) [] = observable true v (mkenv ex_c2 [] [] [] 1) [].
 Proof. exact C15_hypotheses_satisfiable_thm. Qed.
 Print Assumptions C15_hypotheses_satisfiable.
+
+(* "... and after any saved form": composition with the form handler of C14.  For every device state that satisfies
+   C14's dev_ok and every sequence of TCP segments handled by the (repaired) supla_esp_recv_callback, the stored
+   configuration has its Email/Username terminated in place (proved: C14_no_fault), and if WIFI_SSID, Server and
+   MqttTopicPrefix are terminated in place as well, every page rendered from it is independent of the secrets.
+   PARTIAL LINK: termination of those three fields by the form handler is not yet a theorem (C14's frame lemma
+   covers the Email field only); it is enforced by the monitors of C14 ("X is no longer NUL-terminated inside its
+   n bytes") and C15 (FORM events: flip test and literal test on the pages after the save) and by the byte
+   comparison of the composed model (C14.Model.recv + page) with the real code.
+   Full statement (not yet proved):  dev_ok d -> wf_cfg (dcfg d) -> wf_cfg (stored_after sgf d segs). *)
+Theorem C15_after_saved_form_partial : forall sg sgf d segs,
+  C14.Proofs.dev_ok d ->
+  let c1 := stored_after sgf d segs in
+  terminated c1 OFF_EMAIL SZ_EMAIL /\
+  (terminated c1 OFF_SSID SZ_SSID -> terminated c1 OFF_SERVER SZ_SERVER -> terminated c1 OFF_PREFIX SZ_PREFIX ->
+   forall v c2 nm mc stt dd add, low_equiv c1 c2 ->
+     observable sg v (mkenv c1 nm mc stt dd) add = observable sg v (mkenv c2 nm mc stt dd) add).
+Proof. exact C15_after_saved_form_partial_thm. Qed.
+Print Assumptions C15_after_saved_form_partial.
